@@ -7,7 +7,24 @@ import os
 VERIF = os.path.dirname(os.path.dirname(os.path.abspath(__file__)))
 
 # property -> (design_ref, level text, level note, technique) for every claimed check
+TB = ("Trusted: Lean 4.33 kernel; axioms propext/Classical.choice/Quot.sound only (audited by #print axioms on every run; "
+      "no sorry/native_decide/bv_decide); Lean compiler for the model driver; the hand-written model is tied to the C code "
+      "only by the correspondence check (differential execution on every run, exact internal state), whose scopes are finite; "
+      "gcc/glibc/ASan; the C harness's abstraction functions and the script generators.")
+
 CLAIMED = {
+    "C13": {
+        "design_ref": "DESIGN.md 4/C13",
+        "text": "Lean 4 theorems over a link-level model of slist.c (one update per C assignment; abstraction IsSL: links form the "
+                "reference sequence, tail = true last, count = length): per-operation specs for insert_after, erase_after, "
+                "push_front/back, pop_front (incl. empty), front, back, reverse (loop invariant), concat, swap, foreach, clear, sort "
+                "(ordered permutation), and the history theorem run_refines over arbitrary operation lists on arbitrarily many lists "
+                "(induction; no bound). Tied to /repo on every run by executing the compiled model and the real code on the same "
+                "scripts (closure of all reference states in a small scope + seeded random histories) and comparing every traversal, "
+                "tail, count and result; an independent reference-sequence oracle decides concrete violations.",
+        "note": TB + " sort is modelled on the sequence read from the links followed by a relink (its temporary heads live on the C stack).",
+        "technique": "Lean 4 proof (induction over operation lists, link-level refinement) + model/implementation correspondence check",
+    },
 }
 
 PENDING_REASON = "check under construction in this session: not yet claimed (Lean proof + correspondence machinery for it is not committed yet)"
